@@ -109,7 +109,10 @@ def _t(name, cls, *keys):
 S = _t("S", STATIC)
 
 # name: dict(args=[keys of the type tuple in order], handlers=[{argkey: type spec}], slf=bool, next=..., expect=strategy or None)
+_SAME0, _SAME1 = _t("g0", GEN), _t("g1", GEN)
+
 CONFIGS = {
+    "one-type-at-two-positions": dict(args=[0, 1, "kw"], handlers=[{0: _SAME0, 1: _SAME0, "kw": S}, {0: _SAME1, 1: S, "kw": _SAME1}], slf=False, next="next"),
     "single": dict(args=[0], handlers=[{0: _t("g0", GEN)}], slf=False, next="next"),
     "two-predicates": dict(args=[0], handlers=[{0: _t("g0", GEN)}, {0: _t("g1", GEN)}], slf=False, next="next"),
     "two-predicates-no-lower-rank": dict(args=[0, 1], handlers=[{0: _t("g0", GEN), 1: S}, {0: _t("g1", GEN), 1: S}], slf=True, next=None),
